@@ -495,7 +495,7 @@ func c25Run(r *simkit.Run) {
 
 	r.Sched(simkit.SchedOpts{MaxSteps: 400000})
 
-	if r.Live() > 0 {
+	if r.Unfinished() {
 		r.Fail("liveness", "storage", "client did not finish")
 	}
 }
@@ -594,7 +594,7 @@ func c25Concurrent(r *simkit.Run) {
 
 	r.Sched(simkit.SchedOpts{MaxSteps: 400000, Stick: r.DrawStick()})
 
-	if r.Live() > 0 {
+	if r.Unfinished() {
 		r.Fail("liveness", "storage", "tenants did not finish")
 	}
 }
